@@ -205,6 +205,8 @@ func secondShape(second string) string {
 		return "seq"
 	case strings.HasPrefix(second, "parked:"):
 		return "parked"
+	case strings.HasPrefix(second, "stale:"):
+		return "stale"
 	}
 	return "?"
 }
